@@ -79,19 +79,29 @@ class Prop:
         results = []
         if kjobs:
             raw = kanirun.run_jobs(kjobs, logdir)
-            for r in raw:
-                s = summarise_kani(r)
-                if s["status"] == kanirun.VIOLATION:
-                    root = os.path.join(VERIF, "replays", self.pid)
-                    try:
-                        ok, art, detail = kanirun.replay(s["job"], root)
-                    except Exception as e:  # noqa
-                        ok, art, detail = None, "", "replay failed to run: %r" % (e,)
-                    s["reproduced"] = bool(ok)
-                    s["artifact"] = art
-                    s["detail"] = "%s; failed checks: %s" % (detail, "; ".join(
-                        "%s @ %s" % (c["desc"], c["loc"]) for c in s["failed"][:4]))
-                results.append(s)
+            summ = [summarise_kani(r) for r in raw]
+            # Replay before reporting: cheapest violating job first, stop at the first one that
+            # reproduces natively (at most 3 attempts); the others are listed as also failing.
+            viol = sorted([x for x in summ if x["status"] == kanirun.VIOLATION], key=lambda x: x["wall"])
+            reproduced, attempts = False, 0
+            for x in viol:
+                x["detail"] = "failed checks: %s" % "; ".join("%s @ %s" % (c["desc"], c["loc"]) for c in x["failed"][:4])
+                if reproduced or attempts >= 3:
+                    x["reproduced"] = None
+                    x["artifact"] = ""
+                    x["detail"] = "not replayed (another job of this run was); " + x["detail"]
+                    continue
+                attempts += 1
+                root = os.path.join(VERIF, "replays", self.pid)
+                try:
+                    ok, art, detail = kanirun.replay(x["job"], root)
+                except Exception as e:  # noqa
+                    ok, art, detail = None, "", "replay failed to run: %r" % (e,)
+                x["reproduced"] = bool(ok)
+                x["artifact"] = art
+                x["detail"] = detail + "; " + x["detail"]
+                reproduced = reproduced or bool(ok)
+            results.extend(summ)
         for j in other:
             results.extend(j.run(logdir))
         return {"results": results}
@@ -272,6 +282,7 @@ def c17_job(count, state, witness=False, quick=False):
         allowed = set()
     if count == 1:
         allowed.add("attempt budget exhausted with a short result")
+        allowed.add("hard error after data is a success")
     n = 3 if quick else 4
     return Job("arena", name, unwind_fns={r"ByteArena::read_n_impl": n + 1}, timeout=900, mem_gb=8, covers=allowed,
                kind="witness" if witness else "proof",
@@ -293,3 +304,34 @@ reg(Prop(
              "error payloads: errors are io::Error::from(ErrorKind) (no heap payload)"],
     assumptions=["hook H2: arena chunk size 8 bytes (constant sequence) through --cfg woodpile_verif_arena"],
 ))
+
+
+# ---------------------------------------------------------------------------
+# C14 — VouchedTime window (Engine M: MIR -> SMT; Engine K for the public constructor)
+
+import smtengine  # noqa: E402
+
+
+def c14_k(name, timeout=1800, witness=False, allowed=()):
+    return Job("vouched", "c14::" + name, timeout=timeout, mem_gb=10, kind="witness" if witness else "proof", covers=set(allowed),
+               bounds="VouchedTime::new through the public API: concrete calendar minute, symbolic second/nanosecond, symbolic u64 base time, voucher produced for a symbolic (possibly different) value")
+
+
+C14_BEFORE = {"accepted at the forward edge", "accepted at the backward edge", "rejected one past the forward edge"}
+C14_LAST = set()
+
+p14 = Prop(
+    "C14", "VouchedTime window",
+    quick=[smtengine.C14Kernel(), smtengine.C14Compose(), c14_k("c14_new_epoch_minute")],
+    thorough=[smtengine.C14Kernel(), smtengine.C14Compose(), c14_k("c14_new_epoch_minute"), c14_k("c14_new_before_epoch_minute", allowed=C14_BEFORE),
+              c14_k("c14_new_2024_minute"), c14_k("c14_new_2024_minute_witness", witness=True), c14_k("c14_new_last_minute")],
+    bounds_quick="window kernel: all 2^128 x 2^64 (local ms, base ms) inputs, no bound; composition with the voucher verdict and the ns->ms conversion: all representable local times at ns resolution; public constructor: the calendar minute 1970-01-01 00:00 with symbolic seconds/nanoseconds/base/voucher",
+    bounds_thorough="as quick plus the calendar minutes 1969-12-31 23:59, 2024-04-13 17:00, 9999-12-31 23:59 through the public constructor",
+    outside=["the `time` crate's calendar conversion outside the listed minutes (Engine M treats unix_timestamp_nanos as an arbitrary i128 in the calendar range)",
+             "raffle's voucher arithmetic (arbitrary Bool in Engine M; executed for real in the Kani harnesses)",
+             "VouchedTime::now (passes the clock value straight to `new`; not encoded)"],
+    trusted=["MIR -> SMT-LIB translator lib/mir.py (validated on every run against the repository's 17 boundary vectors)", "z3 4.8.12 and cvc5 1.0 (must agree on every query)"],
+)
+p14.engine = "mir-smt + kani-cbmc"
+p14.technique = "symbolic execution of rustc MIR (check_vouched_time, VouchedTime::check) into SMT-LIB bit-vector queries decided by z3 and cvc5 for all inputs, plus Kani/CBMC harnesses on the public constructor"
+reg(p14)
